@@ -221,6 +221,13 @@ func requests() []request {
 						}
 					}
 				}
+				// the same endpoint addressed by the holder of lock 777 (held in the "held" configuration) with files
+				// that are well encoded but do not extend the position
+				for _, b := range []string{"ltx-overlap", "ltx-gap", "ltx-again", "ltx-wrong-pre", "ltx-snapshot", "ltx-trunc-mid", "garbage"} {
+					for _, nh := range []string{"", "foreign"} {
+						add(request{Method: m, Path: p, Query: "name=db&lockID=777", NodeHdr: nh, Body: b, Invalid: true})
+					}
+				}
 			case "/stream":
 				for _, b := range []string{"empty", "posmap-empty", "posmap-one", "posmap-trunc", "posmap-count", "posmap-name", "garbage"} {
 					for _, nh := range nodeHdrs {
@@ -341,6 +348,31 @@ func run1(c Case) (res Result) {
 	enc.SetPostApplyChecksum(ltx.Checksum(next.Checksum()))
 	_ = enc.Close()
 	bods := bodies(lbuf.Bytes())
+	// Well-encoded transaction files that do not extend the primary's position (sent by the holder of the halt lock):
+	// a range overlapping what the primary has, a gap, the current transaction again, a wrong pre-apply checksum,
+	// and a snapshot (first transaction ID 1) of a database that is not empty.
+	mk := func(min, max ltx.TXID, pre ltx.Checksum, pages []uint32) []byte {
+		var b bytes.Buffer
+		e := ltx.NewEncoder(&b)
+		_ = e.EncodeHeader(ltx.Header{Version: 1, PageSize: ps, Commit: next.N(), MinTXID: min, MaxTXID: max, Timestamp: 5, PreApplyChecksum: pre, NodeID: 0xBEEF})
+		for _, p := range pages {
+			_ = e.EncodePage(ltx.PageHeader{Pgno: p}, next.Pages[p-1])
+		}
+		e.SetPostApplyChecksum(ltx.Checksum(next.Checksum()))
+		if err := e.Close(); err != nil {
+			panic(err)
+		}
+		return b.Bytes()
+	}
+	all := make([]uint32, 0, next.N())
+	for p := uint32(1); p <= next.N(); p++ {
+		all = append(all, p)
+	}
+	bods["ltx-overlap"] = mk(cur.TXID, cur.TXID+1, cur.PostApplyChecksum, []uint32{2})
+	bods["ltx-gap"] = mk(cur.TXID+2, cur.TXID+2, cur.PostApplyChecksum, []uint32{2})
+	bods["ltx-again"] = mk(cur.TXID, cur.TXID, cur.PostApplyChecksum, []uint32{2})
+	bods["ltx-wrong-pre"] = mk(cur.TXID+1, cur.TXID+1, cur.PostApplyChecksum^0x10, []uint32{2})
+	bods["ltx-snapshot"] = mk(1, 1, 0, all)
 
 	var client *http.Client
 	if c.Proto == "h2c" {
